@@ -309,6 +309,13 @@ pub fn explore(root: &Root, lname: &str, level: P, rep: &mut Report) {
         if subject::reader_bytes(&st.rd.clone()) != before {
             rep.violation("OutputReader::clone:differs", "clone differs".into(), replay_json(root, lname, &path(&arena, st.node), "OutputReader::clone:differs", "same", "differs"));
         }
+        // ... and so is clone_from into a reader of another stream at another position
+        let mut other = blake3::Hasher::new_keyed(&[0x33; 32]).finalize_xof();
+        other.set_position(77 + st.p % 1000);
+        other.clone_from(&st.rd);
+        if subject::reader_bytes(&other) != before {
+            rep.violation("OutputReader::clone_from:differs", "clone_from differs".into(), replay_json(root, lname, &path(&arena, st.node), "OutputReader::clone_from:differs", "same", "differs"));
+        }
         if st.depth >= root.depth {
             // frontier states still get their invariants (position, purity) checked by `step` on arrival
             continue;
